@@ -200,6 +200,9 @@ def reservedAttrs : List String := {lean_str_list(ra)}
 /-- the same for `DashPathBuilder` (`pathd`) -/
 def reservedAttrsDash : List String := {lean_str_list(rb)}
 
+/-- those of either table that are not Python protocol names (`__x__`) -/
+def reservedPlain : List String := {lean_str_list(sorted(n for n in set(ra) | set(rb) if not (n.startswith("__") and n.endswith("__"))))}
+
 end Treepath.Generated
 """)
 
